@@ -3,6 +3,7 @@ package checks
 import (
 	"encoding/json"
 	"fmt"
+	"net"
 	"os"
 	"runtime"
 	"runtime/debug"
@@ -14,6 +15,7 @@ import (
 	"verifharness/vc"
 	"verifharness/world"
 
+	"github.com/hashicorp/memberlist"
 	"github.com/hashicorp/serf/serf"
 	"github.com/hashicorp/serf/zzverif/vos"
 	"github.com/hashicorp/serf/zzverif/vsched"
@@ -161,12 +163,32 @@ type c14inj struct {
 	Kind string `json:"kind"` // user / query
 	// Route: gossip (NotifyMsg), sync (MergeRemoteState, periodic), join
 	// (MergeRemoteState, join), empty-join (a join state sync from a peer that has
-	// seen no events: event clock 1, no events; LT unused)
+	// seen no events: event clock 1, no events; LT unused), ignore-old-join (a
+	// real Serf.Join(peer, ignoreOld=true) answered by a push/pull reply whose
+	// serf state has event clock LT and the buffered events Buf)
 	Route string `json:"route"`
 	LT    uint64 `json:"lt,string"`
+	// Buf: Lamport times (decimal) of the user events buffered in the reply of
+	// an ignore-old-join.
+	Buf []string `json:"buf,omitempty"`
 }
 
-func (j c14inj) String() string { return fmt.Sprintf("%s(%d) via %s", j.Kind, j.LT, j.Route) }
+func (j c14inj) String() string {
+	if j.Route == "ignore-old-join" {
+		return fmt.Sprintf("Join(ignoreOld=true) answered with event clock %d and buffered user events %v", j.LT, j.Buf)
+	}
+	return fmt.Sprintf("%s(%d) via %s", j.Kind, j.LT, j.Route)
+}
+
+// c14joinReply is the serf part of the peer's push/pull reply.
+func c14joinReply(j c14inj, name string) []byte {
+	pp := &serf.VMessagePushPull{LTime: 1, StatusLTimes: map[string]serf.LamportTime{}, EventLTime: serf.LamportTime(j.LT), QueryLTime: 1}
+	for k, b := range j.Buf {
+		lt, _ := strconv.ParseUint(b, 10, 64)
+		pp.Events = append(pp.Events, &serf.VUserEvents{LTime: serf.LamportTime(lt), Events: []serf.VUserEvent{{Name: fmt.Sprintf("%sb%d", name, k), Payload: []byte("p")}}})
+	}
+	return serf.VEncode(serf.VMsgPushPull, pp)
+}
 
 // c14after creates the second incarnation from the image, injects the messages
 // in order and returns what the application saw after each.
@@ -194,6 +216,19 @@ func c14after(image map[string]string, injs []c14inj) (got [][]c14delivery, minE
 			switch {
 			case j.Route == "empty-join":
 				n.Delegate().MergeRemoteState(serf.VEncode(serf.VMsgPushPull, &serf.VMessagePushPull{LTime: 1, StatusLTimes: map[string]serf.LamportTime{}, EventLTime: 1, QueryLTime: 1}), true)
+			case j.Route == "ignore-old-join":
+				reply := c14joinReply(j, name)
+				n.Tr.Dial = func(memberlist.Address) (net.Conn, error) {
+					return world.NewPushPullConn(func(req []byte) []byte {
+						return world.EncodePushPull([]world.Peer{world.AlivePeer("b", 1, serf.VEncodeTags(n.S, nil))}, reply, false)
+					}), nil
+				}
+				_, err := n.S.Join([]string{"b/10.0.0.2:7946"}, true)
+				n.Tr.Dial = nil
+				if err != nil {
+					errs = "harness: Join failed: " + err.Error()
+					return
+				}
 			case j.Kind == "user" && j.Route == "gossip":
 				n.Delegate().NotifyMsg(c14userMsg(j.LT, name))
 			case j.Kind == "user" && j.Route == "sync":
@@ -225,13 +260,13 @@ func init() {
 	vc.Register(&vc.Check{
 		ID:    "C14",
 		Level: "model_checking",
-		Rule: "cases: every history of 0..N steps (N=3 quick, 4 thorough) before the restart over {user event by gossip with LTime 1,2,10,2^63; user event by push/pull with LTime 5; query with LTime 1,2,10,2^63; +600 ms} delivered to a real Serf node with a snapshot, x stop mode {clean Shutdown, crash at the quiescent point (directory image taken as is, buffered lines lost)}; the node re-created from the image then receives, oldest first, every Lamport time used before the restart plus {rec-1, rec, rec+1, rec+1000} for the recorded event clock and query clock (rec read from the image by an independent parser), user events through each of gossip (NotifyMsg), periodic state sync and join state sync (MergeRemoteState false/true), and gossip preceded by a join state sync from a peer that has seen no events; queries through gossip; one case = one (history, stop mode, route) with all its injections in one restarted node; thorough also runs every injection in a fresh restarted node. A separate small scenario uses LTime 2^64-1. " +
+		Rule: "cases: every history of 0..N steps (N=3 quick, 4 thorough) before the restart over {user event by gossip with LTime 1,2,10,2^63; user event by push/pull with LTime 5; query with LTime 1,2,10,2^63; +600 ms} delivered to a real Serf node with a snapshot, x stop mode {clean Shutdown, crash at the quiescent point (directory image taken as is, buffered lines lost)}; the node re-created from the image then receives, oldest first, every Lamport time used before the restart plus {rec-1, rec, rec+1, rec+1000} for the recorded event clock and query clock (rec read from the image by an independent parser), user events through each of gossip (NotifyMsg), periodic state sync and join state sync (MergeRemoteState false/true), and gossip preceded by a join state sync from a peer that has seen no events; where the snapshot recorded a user-event time, additionally: a real Serf.Join(peer, ignoreOld=true) (what the automatic re-join after a restart uses) answered by an in-memory push/pull responder whose event clock is one of {0, 1, rec-1, rec, rec+1, rec+5} (all six for histories of <= 2 steps quick / <= 3 thorough, {0, rec-1} for the longest histories and in the fresh-node-per-message scenario) and whose reply buffers user events just below and at that clock and at rec, followed by every Lamport time by gossip and by state sync; queries through gossip; one case = one (history, stop mode, route) with all its injections in one restarted node (routes other than gossip only where the snapshot recorded a user-event time); thorough also runs every injection in a fresh restarted node. A separate small scenario uses LTime 2^64-1. " +
 			"A case is non-trivial if the snapshot recorded a time >= 1 for the injected kind and at least one injected message is at or below it. Outcomes = (stop mode, route, which clocks were recorded, number of old / new messages injected, number delivered).",
 		Assumptions: []string{
 			"'recorded in the snapshot' = what an independent parser finds in the snapshot file of the directory image at the restart (complete lines, last event-clock / query-clock value); an image without such a line constrains nothing",
 			"delivery = appearance on the application's EventCh of the restarted node (user-event coalescing off, the default)",
 			"crash = the process disappears at a quiescent point; the image is the file content (what was written through the file handle), buffered lines are lost; crashes inside file operations are C11",
-			"messages are injected at the memberlist delegate interface (NotifyMsg, MergeRemoteState); join replay is MergeRemoteState(isJoin=true) with ignore-old off",
+			"messages are injected at the memberlist delegate interface (NotifyMsg, MergeRemoteState); join replay with ignore-old off is MergeRemoteState(isJoin=true), with ignore-old on it is a real Serf.Join over the inert memberlist whose stream dial is answered by the harness",
 			"no graceful leave before the restart",
 		},
 		Run: c14runCheck,
@@ -292,11 +327,11 @@ func c14injections(ops []c14op, route string, ev, q uint64, hasEv, hasQ bool) []
 	evs[1], qs[1] = true, true
 	var out []c14inj
 	for lt := range evs {
-		out = append(out, c14inj{"user", route, lt})
+		out = append(out, c14inj{Kind: "user", Route: route, LT: lt})
 	}
 	if route == "gossip" {
 		for lt := range qs {
-			out = append(out, c14inj{"query", route, lt})
+			out = append(out, c14inj{Kind: "query", Route: route, LT: lt})
 		}
 	}
 	sort.Slice(out, func(i, j int) bool {
@@ -376,23 +411,38 @@ func c14runCheck(ctx *vc.Ctx) {
 				}
 				ev, q, hasEv, hasQ := c14parse(image[c14path])
 				for _, route := range []string{"gossip", "sync", "join", "gossip-after-empty-join"} {
+					// the routes that carry only user events constrain nothing when
+					// the snapshot recorded no user-event time
+					if route != "gossip" && !(hasEv && ev >= 1) {
+						continue
+					}
 					injs := c14injections(ops, strings.TrimSuffix(route, "-after-empty-join"), ev, q, hasEv, hasQ)
 					if route == "gossip-after-empty-join" {
-						injs = append([]c14inj{{"sync", "empty-join", 0}}, injs...)
+						injs = append([]c14inj{{Kind: "sync", Route: "empty-join"}}, injs...)
 					}
-					if sc.fresh {
-						for _, j := range injs {
-							if j.Route == "empty-join" {
-								continue
-							}
-							one := []c14inj{j}
-							if route == "gossip-after-empty-join" {
-								one = []c14inj{injs[0], j}
-							}
-							c14case(ctx, scn, ops, clean, image, one, true)
+					c14runInjs(ctx, scn, ops, clean, image, injs, sc.fresh)
+				}
+				// a real ignore-old join first (what the automatic re-join after a
+				// restart does), against a peer whose event clock is behind / at /
+				// ahead of the snapshot, then every Lamport time by gossip and by
+				// state sync. Only where the snapshot constrains user events.
+				if hasEv && ev >= 1 {
+					fullJoins := 2 // longest history that gets all six peer clocks
+					if ctx.Thorough() {
+						fullJoins = 3
+					}
+					for _, join := range c14joins(ev) {
+						// {0, rec-1} only for the longest histories and in the fresh-node-per-message scenario
+						if (len(ops) > fullJoins || sc.fresh) && join.LT != 0 && join.LT != ev-1 {
+							continue
 						}
-					} else {
-						c14case(ctx, scn, ops, clean, image, injs, true)
+						injs := []c14inj{join}
+						for _, j := range c14injections(ops, "gossip", ev, q, hasEv, false) {
+							if j.Kind == "user" {
+								injs = append(injs, j, c14inj{Kind: "user", Route: "sync", LT: j.LT})
+							}
+						}
+						c14runInjs(ctx, scn, ops, clean, image, injs, sc.fresh)
 					}
 				}
 			}
@@ -405,6 +455,58 @@ func c14runCheck(ctx *vc.Ctx) {
 		if ctx.Shard == 0 {
 			scn.Sample("before: [U(2) T U(10) Q(2)] clean shutdown -> file records event-clock 10, query-clock 2; after restart user(1,2,9,10) and query(1,2) must not be delivered by any route; user(11), user(1010), query(3) may")
 		}
+	}
+}
+
+// c14joins lists the ignore-old joins tried for a recorded event clock: the
+// peer's event clock from {0, 1, rec-1, rec, rec+1, rec+5}, its reply buffering
+// user events just below and at its clock and at the recorded time.
+func c14joins(rec uint64) []c14inj {
+	var out []c14inj
+	seen := map[uint64]bool{}
+	add := func(elt uint64) {
+		if seen[elt] {
+			return
+		}
+		seen[elt] = true
+		bufSeen := map[uint64]bool{}
+		var buf []string
+		for _, b := range []uint64{elt - 1, elt, rec} {
+			if (b == elt-1 && elt == 0) || bufSeen[b] {
+				continue
+			}
+			bufSeen[b] = true
+			buf = append(buf, strconv.FormatUint(b, 10))
+		}
+		out = append(out, c14inj{Kind: "join", Route: "ignore-old-join", LT: elt, Buf: buf})
+	}
+	add(0)
+	add(1)
+	add(rec - 1)
+	add(rec)
+	if rec+1 > rec {
+		add(rec + 1)
+	}
+	if rec+5 > rec {
+		add(rec + 5)
+	}
+	return out
+}
+
+// c14runInjs runs the injections in one restarted node, or (fresh) each message
+// in its own restarted node after the leading join, if any.
+func c14runInjs(ctx *vc.Ctx, scn *vc.Scenario, ops []c14op, clean bool, image map[string]string, injs []c14inj, fresh bool) {
+	if !fresh {
+		c14case(ctx, scn, ops, clean, image, injs, true)
+		return
+	}
+	var lead []c14inj
+	if len(injs) > 0 && (injs[0].Route == "empty-join" || injs[0].Route == "ignore-old-join") {
+		lead = injs[:1]
+		injs = injs[1:]
+	}
+	for _, j := range injs {
+		c14case(ctx, scn, ops, clean, image, append(append([]c14inj{}, lead...), j), true)
 	}
 }
 
@@ -439,6 +541,16 @@ func c14case(ctx *vc.Ctx, scn *vc.Scenario, ops []c14op, clean bool, image map[s
 		if route == "empty-join" {
 			route = "gossip-after-empty-join"
 		}
+		if route == "ignore-old-join" {
+			switch {
+			case injs[0].LT <= ev:
+				route = "after-ignore-old-join/peer-clock-behind"
+			case injs[0].LT == ev+1:
+				route = "after-ignore-old-join/peer-clock-level"
+			default:
+				route = "after-ignore-old-join/peer-clock-ahead"
+			}
+		}
 	}
 	old, fresh, deliveredN := 0, 0, 0
 	bad := false
@@ -446,7 +558,7 @@ func c14case(ctx *vc.Ctx, scn *vc.Scenario, ops []c14op, clean bool, image map[s
 		isOld := (j.Kind == "user" && hasEv && ev >= 1 && j.LT <= ev) || (j.Kind == "query" && hasQ && q >= 1 && j.LT <= q)
 		if isOld {
 			old++
-		} else if j.Route != "empty-join" {
+		} else if j.Route != "empty-join" && j.Route != "ignore-old-join" {
 			fresh++
 		}
 		for _, d := range got[i] {
